@@ -11,7 +11,7 @@ from vf.worker import R
 PROPERTY = "C10"
 LEVEL = "exploration"
 RULE = ("case = one execution of a plan with clear_checkpoint after 0/1/2 data points (cleanup as finalize_wrapper plan or "
-        "plain try/finally) with a pause, a thread-issued request_pause() or a suspension landing after EVERY loop handle; "
+        "plain try/finally) with a pause, a thread-issued request_pause() or a suspension landing after EVERY loop handle, or with a 'pause' message issued by the plan itself at every position of the section; "
         "judged when the request takes effect after clear_checkpoint was processed: the engine never enters 'paused', the "
         "call raises RunEngineInterrupted, ends 'idle', every run is closed with exit_status 'abort', the plan's cleanup "
         "marker and cleanup messages come after the request, and the next call works; distinct = (plan, position after "
@@ -37,7 +37,12 @@ worker_init = sweepcheck.worker_init
 
 
 def gen_cases(tier, seed):
-    return sweepcheck.gen_cases(tier, seed, PLANS_Q, PLANS_T, ["pause", "suspend", "t-pause"], nslices=(3, 3))
+    cases = sweepcheck.gen_cases(tier, seed, PLANS_Q, PLANS_T, ["pause", "suspend", "t-pause"], nslices=(3, 3))
+    # the plan itself asks for the pause (Msg('pause')) at every position of the section: no injection needed
+    ks = range(0, 16) if tier == "thorough" else range(0, 16, 2)
+    cases += [{"replay_spec": {"plan": f"clearcp_ip{pos}_{k}", "decisions": ["resume", "resume"]}, "kind": "inplan"}
+              for pos in (0, 1, 2) for k in ks]
+    return cases
 
 
 def judge(ex, ref, case):
@@ -45,10 +50,16 @@ def judge(ex, ref, case):
     key0 = f"{ex.spec['plan']}|" + ("+".join(f"{x['kind']}@{x['command']}" for x in li) or "none")
     if ex.timeout or ex.stuck:
         return [R("inconclusive", key0, detail="engine did not come back (judged by C07)")]
-    if not li:
-        return [R("skip", key0, False)]
     log = ex.log
-    inj = next(i for i, e in enumerate(log) if e[0] == "inject")
+    inplan = next((i for i, e in enumerate(log) if e[0] == "plan" and e[1] == "inplan-pause"), None)
+    if not li and inplan is None:
+        return [R("skip", key0, False)]
+    if not li:
+        inj = inplan
+        li = [{"kind": "inplan-pause", "command": "pause"}]
+        key0 = f"{ex.spec['plan']}|inplan-pause"
+    else:
+        inj = next(i for i, e in enumerate(log) if e[0] == "inject")
     eff = next((i for i, e in enumerate(log) if i > inj and e[0] == "state" and e[1] in ("pausing", "suspending", "aborting")), None)
     cc = next((i for i, e in enumerate(log) if e[0] == "msg" and e[1].command == "clear_checkpoint"), None)
     end_call = next((i for i, e in enumerate(log) if e[0] in ("ret", "exc") and e[1] == "RE"), len(log))
